@@ -348,7 +348,7 @@ func cmdConfChange(args []string) int {
 			"samples": c.samples,
 		},
 		Assumptions: []string{"harness/model/conf.go is a correct independent statement of the configuration algebra"}}
-	if err := writeEvidence(fmt.Sprintf("%s/evidence/C13.json", verifDir()), ev); err != nil {
+	if err := writeEvidence(fmt.Sprintf("%s/C13.json", evidenceDir()), ev); err != nil {
 		fmt.Println("cannot write evidence:", err)
 		return 2
 	}
